@@ -269,6 +269,46 @@ def selftest(chk):
   chk.cov['binding_selftest'] = 'corrupted model observation detected'
 
 
+def metadata_runs(_):
+  """"the _asdict() snapshot stored in test metadata always agree": one Test object executed after
+  every change of the effective configuration - the snapshot in each record is the configuration
+  of that execution"""
+  import sys
+  sys.argv = sys.argv[:1]
+  import openhtf as htf
+  from vf import build
+  conf = build.CONF
+  for key, default in (('c20_meta_a', 1), ('c20_meta_b', 'dflt')):
+    try:
+      conf.declare(key, default_value=default)
+    except Exception:  # pylint: disable=broad-except
+      pass
+
+  def ph(test):
+    pass
+  t = htf.Test(ph)
+  out = []
+  t.add_output_callbacks(out.append)
+  bad = []
+  steps = [lambda: conf.load(c20_meta_a=2, _override=True),
+           lambda: conf.load(c20_meta_a=3, c20_meta_b='x', _override=True),
+           lambda: conf.load(c20_meta_a=None, _override=True),
+           lambda: conf.load_from_dict({'c20_meta_b': 'kept?'}, _override=False),
+           lambda: conf.load(c20_meta_b='y', _override=True)]
+  try:
+    for i, step in enumerate(steps):
+      step()
+      want = {k: conf[k] for k in ('c20_meta_a', 'c20_meta_b')}
+      t.execute()
+      got = out[-1].metadata.get('config', {})
+      if {k: got.get(k, '<absent>') for k in want} != want:
+        bad.append('the configuration snapshot in the record of execution %d of a Test disagrees with the configuration '
+                   'read at that time' % (i + 1))
+  finally:
+    conf.load(c20_meta_a=1, c20_meta_b='dflt', _override=True)
+  return bad
+
+
 def main(chk):
   quick = chk.tier == 'quick'
   res = tlc.must_pass(tlc.run('Config', 'Config_mc.cfg', coverage=True, timeout=1500),
@@ -294,6 +334,10 @@ def main(chk):
       emit_and_replay(chk, 'walks-3keys-len40', pool, len(FAMILIES), simulate=40000,
                       keys='"ka", "kb", "kc"', apis='"kw", "dict", "file"', maxlen=40,
                       nest=3, load2='TRUE')
+  with mp.Pool(1) as pool:
+    for sig in pool.apply(metadata_runs, (0,)):
+      chk.violation(sig, dict(scenario='metadata snapshot of repeated executions'))
+  chk.traces += 5
   chk.assumptions += [
       'flag values are injected through load_flag_values(Namespace) rather than sys.argv',
       'value tokens are concretised by %d families of Python values (ints, strs, lists/dicts, '
